@@ -69,6 +69,12 @@ def check(ctx: Ctx) -> str:
     rets = astq.returns(isc.node)
     ok = len(rets) == 1 and _formula_ok(rets[0].value)
     ctx.check(ok, "is_safe_callable", "sandbox:SandboxedEnvironment.is_safe_callable", "formula", f"is_safe_callable returns `{ast.unparse(rets[0].value) if rets else None}`: it must be false when unsafe_callable or alters_data is set", isc.loc())
+    # the marks are read from the object the template is about to call - not from something
+    # derived from it (an unwrapped / underlying function carries other marks)
+    rebinds = [a for a in ast.walk(isc.node) if isinstance(a, (ast.Assign, ast.AugAssign, ast.AnnAssign)) and any(isinstance(t_, ast.Name) and t_.id == "obj" for t_ in (a.targets if isinstance(a, ast.Assign) else [a.target]))]
+    reads = [c for c in astq.calls(isc.node) if astq.callee(c) == "getattr" and len(c.args) >= 2 and isinstance(c.args[1], ast.Constant) and c.args[1].value in ("unsafe_callable", "alters_data")]
+    ctx.check(not rebinds and len(reads) == 2 and all(isinstance(c.args[0], ast.Name) and c.args[0].id == "obj" for c in reads), "is_safe_callable:object", "sandbox:SandboxedEnvironment.is_safe_callable", f"marks read from {[ast.unparse(c.args[0]) for c in reads]}, obj rebound {len(rebinds)}x",
+              f"is_safe_callable must read unsafe_callable / alters_data from the callable itself; here `obj` is rebound ({[ast.unparse(r)[:50] for r in rebinds]}) or the marks are read from {[ast.unparse(c.args[0]) for c in reads]}: a mark set on a decorated wrapper (`@unsafe` above another decorator, `f.alters_data = True` after decoration) is then ignored and the callable runs", isc.loc())
     un = repo.func("sandbox:unsafe")
     ctx.check("f.unsafe_callable = True" in ast.unparse(un.node), "unsafe decorator", "sandbox:unsafe", "marker", "the @unsafe decorator must set unsafe_callable = True", un.loc())
 
